@@ -309,6 +309,12 @@ func (w *World) registerIntrinsics() {
 		}
 		return TimeV{NS: e.clockLast}
 	})
+	w.reg(V+"FirstNow", func(e *Exec, fn *ssa.Function, a []Value) Value {
+		if e.clockFirst == nil {
+			return e.zeroTime()
+		}
+		return TimeV{NS: e.clockFirst}
+	})
 	w.reg(V+"Now", func(e *Exec, fn *ssa.Function, a []Value) Value { return e.now() })
 	w.reg(V+"ClockSpan", func(e *Exec, fn *ssa.Function, a []Value) Value {
 		// starts a new group of clock readings: every reading until the next
